@@ -227,7 +227,7 @@ fn small_domains(ctx: &mut Ctx) {
 fn assert_eq_soft(_b: bool) {}
 
 fn strings(ctx: &mut Ctx) {
-    let n = ctx.n(200_000, 5_000_000);
+    let n = ctx.n(200_000, 20_000_000);
     ctx.cases("strings", n, |ctx, case, rng| {
         let s = hostile_string(rng, 509);
         let s2 = hostile_string(rng, 100);
@@ -378,7 +378,7 @@ fn strings(ctx: &mut Ctx) {
 }
 
 fn sockaddr_and_numbers(ctx: &mut Ctx) {
-    let n = ctx.n(20_000, 500_000);
+    let n = ctx.n(20_000, 2_000_000);
     ctx.cases("values", n, |ctx, _case, rng| {
         let sa: SocketAddr = gen::sockaddr(rng);
         call(ctx, "address attributes", |d| {
@@ -473,7 +473,7 @@ fn all_kinds(rng: &mut Rng) -> Vec<StunAttribute> {
 /// every `is_*` / `as_*` accessor of StunAttribute on every kind (the mismatching ones
 /// must return false / Err, never panic)
 fn enum_accessors(ctx: &mut Ctx) {
-    let n = ctx.n(200, 5_000);
+    let n = ctx.n(200, 20_000);
     ctx.cases("enum-accessors", n, |ctx, _case, rng| {
         let attrs = all_kinds(rng);
         // an Unknown attribute can only be obtained from the decoder
@@ -539,7 +539,7 @@ fn enum_accessors(ctx: &mut Ctx) {
 
 /// build -> clone -> mutate either copy -> read both
 fn clone_independence(ctx: &mut Ctx) {
-    let n = ctx.n(30_000, 800_000);
+    let n = ctx.n(30_000, 3_000_000);
     ctx.cases("clone-independence", n, |ctx, case, rng| {
         match case % 3 {
             0 => {
